@@ -68,7 +68,7 @@ def fault_consts(**kw):
     return d
 cfg("MC_faults_layout.cfg", fault_consts(FieldAlpha="<- AlphaLayout", Aliases='= {""}', MaxFaults="= 2", MaxSel="= 2"), FAULT_INV, spec="SpecF")
 cfg("MC_faults_nested.cfg", fault_consts(FieldAlpha="<- AlphaNested", Aliases='= {""}', MaxFaults="= 1", MaxSel="= 3"), FAULT_INV, spec="SpecF")
-cfg("MC_faults_abstract.cfg", fault_consts(FieldAlpha="<- AlphaAbstractF", Aliases='= {""}', Conds='= {"", "A"}', MaxFaults="= 1", MaxSel="= 3"), FAULT_INV, spec="SpecF")
+cfg("MC_faults_abstract.cfg", fault_consts(FieldAlpha="<- AlphaAbstractF", Aliases='= {""}', Conds='= {"", "A", "B"}', MaxFaults="= 1", MaxSel="= 3"), FAULT_INV, spec="SpecF")
 cfg("MC_faults_pairs.cfg", fault_consts(FieldAlpha="<- AlphaPairs", Aliases='= {"", "z"}', MaxFaults="= 2", MaxSel="= 3"), FAULT_INV, spec="SpecF")
 cfg("MC_faults_mut.cfg", fault_consts(FieldAlpha="<- AlphaMutF", OpTypes='= {"mutation"}', Aliases='= {""}', MaxFaults="= 2", MaxSel="= 3"), FAULT_INV, spec="SpecF")
 cfg("MC_faults_args.cfg", fault_consts(FieldAlpha="<- AlphaArgsF", ArgOpts="<- ArgOptsFail", Aliases='= {"", "z"}', MaxFaults="= 1", MaxSel="= 3"), FAULT_INV, spec="SpecF")
